@@ -15,3 +15,4 @@ pub mod names;
 pub mod uptrace;
 pub mod bytefault;
 pub mod uptrace_read;
+pub mod protoprim;
